@@ -61,6 +61,14 @@ def scanBack (s : Bytes) (lim : Int) : Nat → Int → Int
       if runeStart (s.getD start.toNat 0) then start else scanBack s lim n (start - 1)
     else start
 
+/-- `start` of `DecodeLastRuneInString` after `lim := max(end-UTFMax, 0)`, the backward loop and
+    `if start < 0 { start = 0 }` -/
+def lastStart (s : Bytes) : Int :=
+  let stop : Int := s.length
+  let lim : Int := if stop - 4 < 0 then 0 else stop - 4
+  let start := scanBack s lim 5 (stop - 2)
+  if start < 0 then 0 else start
+
 /-- `utf8.DecodeLastRuneInString(s)` -/
 def decodeLast (s : Bytes) : Nat × Nat :=
   let stop := s.length
@@ -69,9 +77,7 @@ def decodeLast (s : Bytes) : Nat × Nat :=
     let last := s.getD (stop - 1) 0
     if last.toNat < 0x80 then (last.toNat, 1)
     else
-      let lim : Int := if (stop : Int) - 4 < 0 then 0 else (stop : Int) - 4
-      let start := scanBack s lim 5 ((stop : Int) - 2)
-      let start := if start < 0 then 0 else start
+      let start := lastStart s
       let d := decode1 (s.drop start.toNat)
       if start + (d.2 : Int) ≠ (stop : Int) then (runeError, 1) else d
 
